@@ -1,89 +1,403 @@
-"""C11 — a rejected or unacknowledged request never advances the client's view."""
-from props.C07 import C07, parse_line
-import sessionlib as sl
+"""C11 — a rejected or unacknowledged request never advances the client's view.
+
+Two kinds of lines: `cfg run …` (configuration histories on the legacy driver op of lean/NxsModel/Driver/Config.lean,
+every set request with an outcome) and `life nx|comm …` (whole sessions incl. stream start/stop, disconnect / reconnect,
+wrappers with writenow; lean/NxsModel/Driver/Lifecycle.lean).  Self-contained: the session runners are in harness/lifelib.py.
+"""
+from common import Prop
+import lifelib as ll
+
+CODES = ["n1", "n-5", "n22", "n255", "n256", "n65536", "n-1", "n-256", "n-2147483648", "n2147483647"]
+FAIL = ["x", "l"] + CODES
 
 
-class C11(C07):
+def gen_history(rng, n, outcomes="a", maxlen=14):
+    """a configuration history e<cs> d<cs> v<val>:<cs> D A N W:<oDiv>:<oEn> on n >= 1 channels"""
+    ops = []
+    for _ in range(rng.randrange(1, maxlen + 1)):
+        r = rng.random()
+        cs = sorted(set(rng.randrange(n) for _ in range(rng.choice([1, 1, 1, 2, 3]))))
+        if r < 0.2:
+            ops.append("e" + ",".join(map(str, cs)))
+        elif r < 0.35:
+            ops.append("d" + ",".join(map(str, cs)))
+        elif r < 0.55:
+            ops.append(f"v{rng.choice([0, 1, 2, 127, 128, 200, 255, rng.randrange(256)])}:" + ",".join(map(str, cs)))
+        elif r < 0.6:
+            ops.append("D")
+        elif r < 0.65:
+            ops.append("A")
+        elif r < 0.7:
+            ops.append("N")
+        else:
+            ops.append(f"W:{rng.choice(outcomes)}:{rng.choice(outcomes)}")
+    if rng.random() < 0.8:
+        ops.append("W:a:a")
+    if rng.random() < 0.3:
+        ops.append("W:a:a")
+    return ops
+
+
+def gen_life(rng, n, mode, length):
+    """a session on an ACK-supporting device: in-range channel ids, every request answered at random"""
+    nx = mode == "nx"
+    out = ["C"] if rng.random() < 0.9 else []
+
+    def ans():
+        return "~" + ",".join(rng.choice(["a", "a", "a", rng.choice(FAIL)]) for _ in range(3))
+
+    for _ in range(length):
+        r = rng.random()
+        cs = ",".join(str(rng.randrange(-n, n)) for _ in range(rng.choice([1, 1, 1, 2, 3])))
+        wn = "!" if (nx and rng.random() < 0.6) else ""
+        if r < 0.2:
+            c = "S"
+        elif r < 0.4:
+            c = "T"
+        elif r < 0.55:
+            c = "e" + cs + wn
+        elif r < 0.65:
+            c = "d" + cs + wn
+        elif r < 0.75:
+            c = f"v{rng.choice([0, 1, 7, 200, 255])}:{cs}" + wn
+        elif r < 0.8:
+            c = rng.choice(["D", "N"]) + wn if nx else rng.choice(["D", "N", "A"])
+        elif r < 0.93:
+            c = "W"
+        elif r < 0.97:
+            c = "X"
+        else:
+            c = "C"
+        if c != "C":
+            c += ans()
+        out.append(c)
+    out.append("W")
+    return out
+
+
+class C11(Prop):
     id = "C11"
     lean_module = "NxsModel.Props.C11"
-    rule = ("configuration histories as in C07 but every set request answered by ack / nack r / applied-but-ACK-lost / "
-            "lost (per-request scripts), on ACK-supporting devices (and the no-ACK variants as a control); compared "
-            "with the model after every call incl. virtual elapsed time; distinct = distinct line; non-trivial = "
-            "history containing a failed request followed by an acknowledged write")
-    outcomes = ["a", "a", "x", "l", "n1", "n-5", "n22"]
+    rule = ("random configuration histories (enable/disable/divider/default/all + writes, 1..16 calls, channel counts 1..64 and 100..255, half of them through the NxscopeHandler wrappers, rx padding and a stream left running chosen per line) with every set request answered by ack / nack r / applied-but-ACK-lost / "
+            "lost (per-request scripts; r over small, byte-boundary, 16-bit-boundary and extreme 32-bit codes of both signs), "
+            "on ACK-supporting devices (and the no-ACK variants as a control); plus sessions on the NxscopeHandler (wrappers "
+            "with writenow, stream_start / stream_stop, disconnect) and on a bare CommHandler (stream_start / stream_stop "
+            "return values) in which every stream start/stop, divider and enable request is answered at random; compared "
+            "with the model after every call incl. virtual elapsed time and the returned ACK; a device that keeps streaming "
+            "thousands of frames after a rejected stop must still get its next configuration write acknowledged in bounded "
+            "time; distinct = distinct line; non-trivial = history containing a failed request followed by an acknowledged write")
+    assumptions = ["virtual-time runtime (harness/vsim.py) preserves queue/lock/thread semantics",
+                   "reference device (harness/refdev.py) is a conforming NxScope device"]
 
     def cases(self, rng, tier):
-        for line, tag in super().cases(rng, tier):
-            t = line.split(" ")
-            if rng.random() < 0.85:
-                t[2] = str(int(t[2]) | 2)   # mostly ACK-supporting devices
-            yield " ".join(t), "ack" if int(t[2]) & 2 else "noack"
+        T = tier == "thorough"
+        outcomes = ["a", "a", "a", "x", "l", "n1", "n-5", rng.choice(CODES), rng.choice(CODES)]
+        # a device without channels: every write is a no-op, whatever the device would answer (F18)
+        for flags in (2, 3):
+            yield f"cfg run {flags} - - W:l:n1;A;D;N;W:a:a", "zero-channels"
+        for it in range(600 if T else 110):
+            n = rng.choice([1, 2, 3, 4, 5, 8, 16, 64]) if it % 12 else rng.choice([100, 127, 128, 200, 254, 255])
+            flags = rng.randrange(4) | (2 if rng.random() < 0.85 else 0)     # mostly ACK-supporting devices
+            en = [rng.random() < 0.4 for _ in range(n)]
+            div = [rng.choice([0, 0, 3, 200]) for _ in range(n)]
+            ops = gen_history(rng, n, outcomes)
+            if rng.random() < 0.1:
+                ops.insert(rng.randrange(len(ops) + 1), rng.choice([f"e{n}", "v256:0", "v-1:0", f"d0,{n + 3}", f"v5:{n}"]))
+            yield f"cfg run {flags} {ll.bits(en)} {ll.ints(div)} {';'.join(ops)}", "ack" if flags & 2 else "noack"
+        # every NACK code on both requests
+        for code in CODES:
+            yield f"cfg run 3 010 0,0,9 e0;v4:1;W:{code}:{code};W:a:{code};W:a:a", "codes"
         # the historical defect F13 and neighbours, exhaustively for 3 channels
         for first in ("x", "l", "n3"):
             for a in range(3):
                 for b in range(3):
                     yield f"cfg run 3 000 0,0,0 e{a};W:a:{first};{'d' if a == b else 'e'}{b};W:a:a;W:a:a", "f13-family"
                     yield f"cfg run 3 000 0,0,0 v9:{a};W:{first}:a;v{0 if a == b else 7}:{b};W:a:a", "f13-family-div"
+        # a failed single-channel request that was applied, then that channel put back and exactly one other changed
+        for first in ("x", "l"):
+            for a, b in ((0, 2), (1, 0), (2, 1)):
+                yield f"cfg run 3 000 0,0,0 e{a};W:a:{first};d{a};e{b};W:a:a;W:a:a", "single-then-single"
+                yield f"cfg run 3 000 0,0,0 v7:{a};W:{first}:a;v0:{a};v2:{b};W:a:a", "single-then-single"
+                yield ll.mk_line("nx", 3, [0, 0, 0], [0, 0, 0], 0, 0, ll.plain_chans(3),
+                                 ["C", f"e{a}!~a,a,{first}", f"d{a}", f"e{b}!", "W", "X"]), "single-then-single"
+        # start / stop requests under every outcome, both handler levels, idle and streaming device
+        P3 = ll.plain_chans(3)
+        for o in ["a", "x", "l"] + CODES:
+            for fl in (3, 2, 1):
+                yield ll.mk_line("comm", fl, [0, 1, 0], [0, 0, 0], 0, 0, P3, ["C", f"S~{o},a,a", "e0", f"T~{o},a,a", "W", f"S~a,a,a", f"T~{o},a,a", "T", "X"]), "startstop-comm"
+                yield ll.mk_line("nx", fl, [0, 1, 0], [0, 0, 0], 1, 0, P3, ["C", f"S~{o},a,a", "e0", f"T~{o},a,a", "W", "S", f"X~{o},a,a", "C", "W", "X"]), "startstop-nx"
+        yield ll.mk_line("comm", 3, [0, 0], [0, 0], 0, 0, ll.plain_chans(2), ["S~l,a,a", "T~n5,a,a", "C", "X", "S~x,a,a"]), "startstop-comm"
+        # an ACK frame with code 0 sent by a device that did not apply the request: the client takes it as the positive ACK
+        yield ll.mk_line("comm", 3, [0, 0], [0, 0], 1, 0, ll.plain_chans(2), ["C", "S~n0,a,a", "T~n0,a,a", "X"]), "startstop-code0"
+        yield ll.mk_line("nx", 3, [0, 0], [0, 0], 0, 0, ll.plain_chans(2), ["C", "S~n0,a,a", "X~n0,a,a"]), "startstop-code0"
+        # the wrappers with writenow under failing ACKs (F13 family through the high-level API)
+        for first in ("x", "l", "n3"):
+            for a in range(3):
+                for b in range(3):
+                    yield ll.mk_line("nx", 3, [0, 0, 0], [0, 0, 0], 0, 0, P3,
+                                     ["C", f"e{a}!~a,a,{first}", f"{'d' if a == b else 'e'}{b}!", "W", "X"]), "f13-family-nx"
+                    yield ll.mk_line("nx", 3, [0, 0, 0], [0, 0, 0], 0, 0, P3,
+                                     ["C", f"v9:{a}!~a,{first},a", f"v{0 if a == b else 7}:{b}!", "W", "X"]), "f13-family-nx"
+        # a channel left enabled by a rejected disable-all at disconnect, then a NACKed single request (bulk retry)
+        for o in ("n5", "l"):
+            yield ll.mk_line("nx", 3, [0] * 6, [0] * 6, 0, 0, ll.plain_chans(6),
+                             ["C", "e3!", f"X~a,a,{o}", "C", f"e5!~a,a,{o}", "W", "X"]), "left-enabled"
+        for it in range(500 if T else 90):
+            n = rng.choice([1, 2, 3, 4, 5, 8])
+            mode = "nx" if it % 3 else "comm"
+            en = [rng.random() < 0.4 for _ in range(n)]
+            div = [rng.choice([0, 0, 3, 200]) for _ in range(n)]
+            rxp, chans = ll.gen_desc(rng, n, plain=rng.random() < 0.5)
+            fl = 3 if rng.random() < 0.7 else rng.randrange(4)
+            yield ll.mk_line(mode, fl, en, div, rng.randrange(2), rxp, chans, gen_life(rng, n, mode, rng.randrange(2, 16))), f"life-{mode}"
+
+    def impl(self, line):
+        if line.startswith("life "):
+            return ll.impl_line(line)
+        flags, en, div, ops = ll.parse_cfg_line(line)
+        out, info = ll.run_cfg_history(flags, en, div, ops, **ll.cfg_dims(line))
+        if info.get("unaligned"):
+            return "unaligned-write " + repr(info["unaligned"][:3])
+        if info["errors"] or info["live_after"]:
+            return "harness: " + repr(info["errors"]) + repr(info["live_after"])
+        return "ok " + " | ".join(out)
 
     def nontrivial(self, line, out):
-        return any(o in line for o in (":x", ":l", ":n")) and line.rstrip().endswith("W:a:a")
+        if line.startswith("life "):
+            return any(f"{s}{o}" in line for s in "~," for o in ("x", "l", "n"))
+        return any(o in line for o in (":x", ":l", ":n")) and line.rstrip().endswith(":a:a")
 
     def oracle(self, line, impl_out=None):
-        flags, en, div, ops = parse_line(line)
+        if line.startswith("life "):
+            p = ll.parse_line(line)
+            v = life_oracle(p)
+            if v:
+                v.setdefault("history", [c + ("~" + ",".join(a) if a else "") for c, a in p["calls"]])
+                v.setdefault("handler", "NxscopeHandler" if p["mode"] == "nx" else "bare CommHandler")
+            return v
+        v = self.cfg_oracle(line)
+        if v:
+            d = ll.cfg_dims(line)
+            v["dimensions"] = {"handler": "NxscopeHandler wrappers (no writenow)" if d["high"] else "CommHandler",
+                               "rx_padding": d["rxpadding"], "stream_left_running_at_connect": d["started"]}
+        return v
+
+    def cfg_oracle(self, line):
+        """configuration histories: after every call the reported state is the last acknowledged one; a write returns
+        within two ACK timeouts; a fully acknowledged write makes device = requested = reported"""
+        flags, en, div, ops = ll.parse_cfg_line(line)
         if not flags & 2:
             return None
         n = len(en)
         try:
-            out, info = sl.run_cfg_history(flags, en, div, ops)
+            out, info = ll.run_cfg_history(flags, en, div, ops, **ll.cfg_dims(line))
         except Exception as e:
-            return {"key": "session-raises", "what": f"{type(e).__name__}: {e}", "expected": "no exception", "observed": type(e).__name__}
+            key = "unbounded-wait" if type(e).__name__ in ll.STUCK else "session-raises"
+            return {"key": key, "what": f"{type(e).__name__}: {str(e)[:300]}", "expected": "every call returns", "observed": type(e).__name__}
         if info["errors"]:
             return {"key": "thread-died", "what": "a library thread died: " + repr(info["errors"][0]), "expected": "-", "observed": "-"}
         div_sup = bool(flags & 1)
         req_en, req_div = list(en), list(div)
-        ack_en, ack_div = sl.bits(en), sl.ints(div)        # last state the device acknowledged
+        ack_en, ack_div = ll.bits(en), ll.ints(div)        # last state the device acknowledged
         for op, st in zip(ops, out):
             f = dict(kv.split("=", 1) for kv in st.split(";"))
             if f["e"] != "-":
-                return None
+                return None            # a raising setter (bad id / value): not this property's subject
             now_en, now_div = f["now"].split("/")
             cp_en, cp_div = f["cp"].split("/")
-            if op.startswith("W:"):
+            is_write = op.startswith("W:")
+            if is_write and n > 0:
                 _, od, oe = op.split(":")
                 if int(f["t"]) > 21:
-                    return {"key": "unbounded-wait", "what": "write took longer than two ACK timeouts", "expected": "<= 2.1 s", "observed": f["t"]}
-                div_ok = (not div_sup) or od == "a"
-                en_ok = oe == "a"
+                    return {"key": "unbounded-wait", "what": "write took longer than two ACK timeouts", "expected": "<= 2.1 s", "observed": f["t"],
+                            "history": ops}
                 if div_sup and od == "a":
-                    ack_div = sl.ints(req_div)
-                if en_ok:
-                    ack_en = sl.bits(req_en)
-                if (now_en, cp_en) != (ack_en, ack_en) or (div_sup and (now_div, cp_div) != (ack_div, ack_div)):
-                    return {"key": "view-advanced", "what": "client view is not the last acknowledged state",
-                            "expected": f"{ack_en}/{ack_div}", "observed": f"now={f['now']} cp={f['cp']}", "history": ops}
-                if div_ok and en_ok and od == "a":
-                    d_en, d_div = f["dev"].split("/")
-                    if d_en != sl.bits(req_en) or (div_sup and d_div != sl.ints(req_div)) or now_en != d_en:
-                        return {"key": "no-convergence", "what": "an acknowledged write left device != requested/reported state",
-                                "expected": f"{sl.bits(req_en)}/{sl.ints(req_div)}", "observed": st, "history": ops}
-            else:
-                if op[0] == "e":
-                    for c in op[1:].split(","):
-                        req_en[int(c)] = True
-                elif op[0] == "d":
-                    for c in op[1:].split(","):
-                        req_en[int(c)] = False
-                elif op[0] == "v":
-                    v, cs = op[1:].split(":")
-                    for c in cs.split(","):
-                        req_div[int(c)] = int(v)
-                elif op == "D":
-                    req_en, req_div = [False] * n, [0] * n
-                elif op == "A":
-                    req_en = [True] * n
-                elif op == "N":
-                    req_en = [False] * n
+                    ack_div = ll.ints(req_div)
+                if oe == "a":
+                    ack_en = ll.bits(req_en)
+            elif op[0] == "e":
+                for c in op[1:].split(","):
+                    req_en[int(c)] = True
+            elif op[0] == "d":
+                for c in op[1:].split(","):
+                    req_en[int(c)] = False
+            elif op[0] == "v":
+                v, cs = op[1:].split(":")
+                for c in cs.split(","):
+                    req_div[int(c)] = int(v)
+            elif op == "D":
+                req_en, req_div = [False] * n, [0] * n
+            elif op == "A":
+                req_en = [True] * n
+            elif op == "N":
+                req_en = [False] * n
+            if (now_en, cp_en) != (ack_en, ack_en) or (div_sup and (now_div, cp_div) != (ack_div, ack_div)):
+                return {"key": "view-advanced", "what": f"after {op} the client's view is not the last acknowledged state",
+                        "expected": f"{ack_en}/{ack_div}", "observed": f"now={f['now']} cp={f['cp']}", "history": ops}
+            if is_write and n > 0 and oe == "a" and (od == "a" or not div_sup):
+                d_en, d_div = f["dev"].split("/")
+                if d_en != ll.bits(req_en) or (div_sup and d_div != ll.ints(req_div)) or now_en != d_en:
+                    return {"key": "no-convergence", "what": "an acknowledged write left device != requested/reported state",
+                            "expected": f"{ll.bits(req_en)}/{ll.ints(req_div)}", "observed": st, "history": ops}
         return None
+
+    # -- a device that keeps streaming after a rejected stop: later requests must still be acknowledged in bounded time ------
+    BURST = [("nx", ["C", "e1!", "S", "T~n3,a,a", "e2!", "W", "X"], 4, 5000),
+             ("nx", ["C", "e0!", "S", "T~l,a,a", "v7:1!", "X"], 4, 4200)]
+
+    def burst_checks(self, which):
+        out = []
+        for mode, calls, idx, n in which:
+            line = ll.mk_line(mode, 3, [0, 0, 0], [0, 0, 0], 0, 0, ll.plain_chans(3), calls)
+            p = ll.parse_line(line)
+            v = life_oracle(p, burst={idx: n})
+            if v:
+                v["case"] = f"burst:{idx}:{n}:{line}"
+                v.setdefault("history", calls)
+                v["what"] = (f"the device keeps streaming after the failed stop and sends {n} stream frames before call {idx} "
+                             f"({calls[idx]}): " + v["what"])
+                out.append(v)
+        return out
+
+    def extra_checks(self, rng, tier, ev):
+        res = self.burst_checks(self.BURST if tier == "thorough" else self.BURST[:1])
+        ev["coverage"]["burst_scenarios"] = len(self.BURST if tier == "thorough" else self.BURST[:1])
+        return res
+
+    def replay(self, obj):
+        case = obj["case"]
+        if case.startswith("burst:"):
+            _, idx, n, line = case.split(":", 3)
+            return life_oracle(ll.parse_line(line), burst={int(idx): int(n)})
+        return self.oracle(case)
+
+    def deep_search(self, rng):
+        return self.burst_checks(self.BURST)
+
+    def search_cases(self, rng):
+        for _ in range(200):
+            n = rng.choice([2, 3, 4, 6])
+            mode = rng.choice(["nx", "comm"])
+            yield ll.mk_line(mode, 3, [rng.random() < 0.4 for _ in range(n)], [rng.choice([0, 3]) for _ in range(n)], rng.randrange(2), 0,
+                             ll.plain_chans(n), gen_life(rng, n, mode, rng.randrange(3, 12))), "search"
+
+
+def life_oracle(p, burst=None):
+    """the property on a life-cycle session (ACK-supporting device): every call returns in bounded time; a start/stop
+    request returns the acknowledgement it got; what the client reports is the last state the device acknowledged;
+    an acknowledged write makes device = requested = reported"""
+    if not p["flags"] & 2:
+        return None
+    if any(a and "n0" in a for _, a in p["calls"]):
+        return None                # code 0 is not a rejection: outside the property's quantifier
+    nx = p["mode"] == "nx"
+    n = len(p["en"])
+    div_sup = bool(p["flags"] & 1)
+    rich = []
+    final = None               # what to report if no single call can be blamed
+    try:
+        out, info = ll.run_life(p, rich, burst=burst, real_limit=40.0)
+        if info["errors"]:
+            final = {"key": "thread-died", "what": "a library thread died: " + repr(info["errors"][0]), "expected": "-", "observed": "-"}
+    except Exception as e:
+        key = "unbounded-wait" if type(e).__name__ in ll.STUCK else "session-raises"
+        nxt = p["calls"][len(rich)][0] if len(rich) < len(p["calls"]) else "the final disconnect"
+        final = {"key": key, "what": f"call {len(rich)} ({nxt}) did not return: {type(e).__name__}: {str(e)[:300]}",
+                 "expected": "every call returns in bounded time", "observed": type(e).__name__}
+    connected = False
+    streaming = False          # the high-level handler's own idea (a second stream_start does nothing)
+    req_en = req_div = ack_en = ack_div = None
+    prev = None
+    for i, r in enumerate(rich):
+        call = r["call"]
+        wn = call.endswith("!")
+        c = call[:-1] if wn else call
+        st, dv, en = r["ans"] or ("a", "a", "a")
+        hist = [x["call"] + ("~" + ",".join(x["ans"]) if x["ans"] else "") for x in rich[:i + 1]]
+        wait = r["dt"] - r["join"]
+        if wait > 4.7 or r["join"] > 2.1:
+            return {"key": "unbounded-wait", "what": f"call {call} waited {wait:.2f} s for the device and {r['join']:.2f} s for its threads",
+                    "expected": "<= 3 ACK timeouts + 2 drains; <= 1 s per joined thread", "observed": f"{r['dt']:.2f}", "history": hist}
+        if r["res"] not in ("ok",) and not r["res"].startswith("ack:"):
+            return final           # a raising call (out-of-range id, call on a disconnected handler): outside this oracle
+        if c == "C":
+            if not connected:
+                connected = True
+                req_en, req_div = list(r["dev_en"]), list(r["dev_div"])
+                ack_en, ack_div = list(r["dev_en"]), list(r["dev_div"])
+            prev = r
+            continue
+        if not connected:
+            prev = r
+            continue
+        writes = False
+        if c in ("S", "T") and not nx:
+            # return value of stream_start() / stream_stop(): the acknowledgement state
+            want = {"a": "ack:1:0", "x": "ack:0:", "l": "ack:0:"}.get(st, "ack:0:" + st[1:])
+            if not (r["res"].startswith(want) if want.endswith(":") else r["res"] == want):
+                return {"key": "ack-state", "what": f"{'stream_start' if c == 'S' else 'stream_stop'}() answered with '{st}' returned {r['res']}",
+                        "expected": want + ("<code>" if want.endswith(":") else ""), "observed": r["res"], "history": hist}
+            if wait > 1.0 + 1e-6:
+                return {"key": "unbounded-wait", "what": f"{call} took {wait:.2f} s", "expected": "<= 1 s", "observed": wait, "history": hist}
+            if st in ("a", "x") and r["dev_started"] != (c == "S"):
+                return {"key": "ack-state", "what": "an applied start/stop request did not reach the device", "expected": c == "S",
+                        "observed": r["dev_started"], "history": hist}
+        elif c == "S":
+            if not streaming:
+                writes = True
+                streaming = True
+        elif c == "T":
+            streaming = False
+        elif c == "X":
+            if nx:
+                req_en = [False] * n
+                writes = True
+                streaming = False
+        elif c == "W":
+            writes = True
+        elif c[0] in "ed":
+            for x in c[1:].split(","):
+                req_en[int(x)] = c[0] == "e"
+            writes = wn
+        elif c[0] == "v":
+            v, cs = c[1:].split(":")
+            for x in cs.split(","):
+                req_div[int(x)] = int(v)
+            writes = wn
+        elif c == "D":
+            req_en, req_div = [False] * n, [0] * n
+            writes = wn
+        elif c == "N":
+            req_en = [False] * n
+            writes = wn
+        elif c == "A":
+            req_en = [True] * n
+        if writes and n > 0:
+            if div_sup and dv == "a":
+                ack_div = list(req_div)
+            if en == "a":
+                ack_en = list(req_en)
+        if c == "X":
+            connected = False
+            prev = r
+            continue
+        v = r["view"]
+        if v["now_en"] != ack_en or v["cp_en"] != ack_en or (div_sup and (v["now_div"] != ack_div or v["cp_div"] != ack_div)):
+            lag = prev is not None and prev["view"] is not None and all(v[k] == prev["view"][k] for k in ("now_en", "now_div", "cp_en", "cp_div"))
+            return {"key": "ack-not-seen" if (lag and writes) else "view-advanced",
+                    "what": f"after {call} the client's view is not the last state the device acknowledged"
+                            + (" (the device acknowledged the request, the client did not take it)" if (lag and writes) else ""),
+                    "expected": f"{ll.bits(ack_en)}/{ll.ints(ack_div)}",
+                    "observed": f"reported={ll.bits(v['now_en'])}/{ll.ints(v['now_div'])} description copy={ll.bits(v['cp_en'])}/{ll.ints(v['cp_div'])}",
+                    "history": hist}
+        if writes and n > 0 and en == "a" and (dv == "a" or not div_sup):
+            if r["dev_en"] != req_en or v["now_en"] != req_en or (div_sup and (r["dev_div"] != req_div or v["now_div"] != req_div)):
+                return {"key": "no-convergence", "what": f"the write of {call}, every request acknowledged, left device / requested / reported state apart",
+                        "expected": f"{ll.bits(req_en)}/{ll.ints(req_div)}",
+                        "observed": f"device={ll.bits(r['dev_en'])}/{ll.ints(r['dev_div'])} reported={ll.bits(v['now_en'])}/{ll.ints(v['now_div'])}",
+                        "history": hist}
+        prev = r
+    return final
 
 
 PROP = C11()
